@@ -10,7 +10,7 @@ import gen as G
 import verde as vd
 
 ID = "C03"
-TRANSLATED = True      # Gen/Kernels.lean is regenerated from /repo by py2lean.py and bridged to the model in Props/C03.lean
+TRANSLATED = "kernels"      # Gen/Kernels.lean is regenerated from /repo by py2lean.py and bridged to the model in Props/C03.lean
 FILES = ["verde/spline.py", "verde/vector.py", "verde/trend.py", "verde/synthetic.py", "verde/scipygridder.py"]
 RULE = ("corpus of dangerous distances {0, 1e-300, 1e-12, 1/2, 1-eps, 1, 1+eps, e, 1e4, 1e8} x mindist {0, 1e-3, 1, 1e4} x Poisson in [-1, 1] + seeded "
         "point/force sets: Spline.jacobian / predict (parameters set externally), VectorSpline2D.jacobian / predict, Trend.jacobian / predict for degrees "
@@ -77,6 +77,9 @@ def corpus():
         npar = (deg + 1) * (deg + 2) // 2
         cs.append(mk_trend([0.5, -1.25, 2.0], [1.5, 0.25, -0.75], [3], deg, [float(k + 1) / 4 for k in range(npar)], f"corpus-trend-{deg}"))
     cs.append(mk_checker((0.0, 5000.0, -5000.0, 0.0), 1000.0, None, None, [0.0, 625.0, 1250.0, 4000.0], [0.0, -625.0, -100.0, -5000.0], [4], "corpus-checker"))
+    for c in list(cs):
+        if c["fn"] in ("sjac", "vjac"):
+            cs.append(dict(c, numba_src=True, kind=c["kind"] + "-numba-src", key="numba-src"))
     return cs
 
 
@@ -125,7 +128,35 @@ def generate(rng, tier):
             qe = [rng.random() * 10 for _ in range(6)]
             qn = [rng.random() * 1000 for _ in range(6)]
             cs.append(mk_scipy(rng.choice(["linear", "cubic"]), rng.random() < 0.5, es, ns, d, qe, qn, "scipy"))
+    # the numba-engine source (not importable here: numba absent) on a share of the kernel cases
+    for c in list(cs):
+        if c["fn"] in ("sjac", "spred", "vjac", "vpred") and rng.random() < 0.5:
+            cs.append(dict(c, numba_src=True, kind=c["kind"] + "-numba-src", key="numba-src"))
     return cs
+
+
+def _numba_src(fn, a):
+    """The numba-engine functions, run from their source text (see common.numba_source)."""
+    sp, vec = C.numba_source("verde/spline.py"), C.numba_source("verde/vector.py")
+    if fn == "sjac":
+        oe, on, fe, fn_, md = a
+        jac = np.full((len(oe), len(fe)), np.nan)
+        return sp["jacobian_numba"](np.array(oe), np.array(on), np.array(fe), np.array(fn_), md, jac).tolist()
+    if fn == "spred":
+        oe, on, shape2d, fe, fn_, md, forces = a
+        res = np.full(len(oe), np.nan)
+        return sp["predict_numba"](np.array(oe), np.array(on), np.array(fe), np.array(fn_), md, np.array(forces), res).tolist()
+    if fn == "vjac":
+        oe, on, fe, fn_, md, nu = a
+        jac = np.full((2 * len(oe), 2 * len(fe)), np.nan)
+        return vec["jacobian_2d_numba"](np.array(oe), np.array(on), np.array(fe), np.array(fn_), md, nu, jac).tolist()
+    if fn == "vpred":
+        oe, on, shape2d, fe, fn_, md, nu, f_e, f_n = a
+        ve, vn = np.full(len(oe), np.nan), np.full(len(oe), np.nan)
+        r = vec["predict_2d_numba"](np.array(oe), np.array(on), np.array(fe), np.array(fn_), md, nu,
+                                    np.array(list(f_e) + list(f_n)), ve, vn)
+        return [r[0].tolist(), r[1].tolist()]
+    raise C.Infra("unknown numba-src fn")
 
 
 def impl(case):
@@ -136,6 +167,8 @@ def impl(case):
         with warnings.catch_warnings():
             warnings.simplefilter("ignore")
             with np.errstate(all="ignore"):
+                if case.get("numba_src"):
+                    return _numba_src(fn, a)
                 if fn == "sjac":
                     oe, on, fe, fn_, md = a
                     return vd.Spline(mindist=md).jacobian((np.array(oe), np.array(on)), (np.array(fe), np.array(fn_))).tolist()
